@@ -70,15 +70,16 @@ def run_block(stmts, env: dict | None = None) -> dict:
     Returns env name -> resolved expression AST.  Other statements are ignored."""
     env = dict(env or {})
     for s in stmts:
-        if isinstance(s, ast.Assign) and len(s.targets) == 1:
-            t = s.targets[0]
-            if isinstance(t, ast.Name):
-                env[t.id] = resolved(s.value, env)
-            elif isinstance(t, ast.Tuple) and isinstance(s.value, ast.Tuple) and len(t.elts) == len(s.value.elts):
-                vals = [resolved(v, env) for v in s.value.elts]
-                for a, v in zip(t.elts, vals):
-                    if isinstance(a, ast.Name):
-                        env[a.id] = v
+        if isinstance(s, ast.Assign):
+            value = resolved(s.value, env)
+            for t in s.targets:
+                if isinstance(t, ast.Name):
+                    env[t.id] = value
+                elif isinstance(t, ast.Tuple) and isinstance(s.value, ast.Tuple) and len(t.elts) == len(s.value.elts):
+                    vals = [resolved(v, env) for v in s.value.elts]
+                    for a, v in zip(t.elts, vals):
+                        if isinstance(a, ast.Name):
+                            env[a.id] = v
         elif isinstance(s, ast.AnnAssign) and isinstance(s.target, ast.Name) and s.value is not None:
             env[s.target.id] = resolved(s.value, env)
     return env
